@@ -401,6 +401,25 @@ def rule_E9(F, R):
         R.violation(fn + ' / E9 / count by address', 'E9', 'the count of distinct addresses must run over the nodes of the diagram itself (node_list(root)); %s' % (
             'it runs over nodes mapped through the table, which all have the representative\'s address' if by_addr else 'no count by address found'), t['span']['loc'] if 'span' in t else None)
 
+def rule_E10(F, R):
+    """C13 / C19: a set works in one environment - the one it was given or created with.  Only the constructor `BDDSet::new` creates an
+    environment; no method of a set does (a probe built in a scratch environment and then combined with the set's own diagram stores
+    nodes whose children live in another table: sharing is gone for everything built on top of them)"""
+    lib = F.lib()
+    S = 'rsbdd::set::BDDSet::'
+    n = 0
+    for name, t in sorted(lib.ithir.items()):
+        if not name.startswith('rsbdd::set::') or '@inl' in name: continue
+        base = name.split('::{closure')[0]
+        if base == S + 'new': continue
+        n += 1
+        bad = [e for e in walk(t['body']) if e['k'] == 'Call' and (callee_name(e) or '') in (S + 'new', 'rsbdd::bdd::BDDEnv::new', '<rsbdd::bdd::BDDEnv<S> as std::default::Default>::default')]
+        bad += [e for e in walk(t['body']) if e['k'] == 'Call' and callee_decl(e) == 'std::default::Default::default' and 'BDDEnv' in str((e.get('ty') or {}).get('s'))]
+        R.count('E10:set-functions'); R.obligation(not bad, 'E10 ' + name)
+        for e in bad:
+            R.violation('%s / E10 / second environment' % base, 'E10', '%s creates an environment of its own (%s): diagrams built there do not share nodes with the set\'s environment' % (base.split('::')[-1], (callee_name(e) or '').split('::')[-1]), e.get('loc'))
+    if n == 0: R.violation('rsbdd::set / E10 / VACUITY', 'VACUITY', 'no function of the set module found')
+
 def rule_E8(F, R):
     """C13: a formula built with `new_with_env` works in the environment it was given - the `env` field of every ParsedFormula it
     constructs is the parameter itself (an `Rc` handle to it), never a copy of the environment (a copy has its own node table)"""
